@@ -218,7 +218,7 @@ def check_case(run, case, tier='quick'):
             run.case()
         # sequences of up to 3 requests (status/help), optionally ending with EOF / handler error
         for _ in range(max(8, len(pts) // 6)):
-            k = rng.randint(2, 3)
+            k = rng.randint(2, 3) if tier == 'quick' else rng.choice([2, 3, 4, 6])
             ps = sorted(rng.sample(pts_all, k))
             acts = [rng.choice(['', 'h', 'x']) for _ in range(k - 1)] + [rng.choice(['', 'h', EOF, ERR])]
             steps = [sched.Step(p, a, rng.choice([None, rng.randint(1, 40)]), p + rng.randint(1, 40)) for p, a in zip(ps, acts)]
